@@ -24,7 +24,7 @@ COMPONENTS = {
 }
 ASSUMPTIONS = ['an interrupted write_bytes leaves the entry missing, empty or a proper prefix (process-kill model)',
                'both branches see the same urandom stream and clock for the command, so any difference is the cache\'s']
-PROBES = ['cache_hit_possible', 'torn_prefix', 'torn_empty', 'torn_removed', 'shared_cache', 'second_repository', 'stale_entries', 'delete', 'clean']
+PROBES = ['pair', 'pair_cold_cache', 'cache_hit_possible', 'torn_prefix', 'torn_empty', 'torn_removed', 'shared_cache', 'second_repository', 'stale_entries', 'delete', 'clean']
 TIERS = {'quick': {'budget_s': 60, 'batch': 4}, 'thorough': {'budget_s': 900, 'batch': 8}}
 
 
@@ -34,6 +34,18 @@ def gen_case(seed, tier):
     case['cache_mode'] = rng.choice(['own', 'own', 'shared', 'shared', 'second-repo'])
     case['torn_budget'] = 6 if tier == 'quick' else 24
     case['torn_seed'] = rng.randrange(1 << 30)
+    case['opts']['hot_p'] = rng.choice([0.0, 0.2, 0.5])
+    # two clients running read-only commands at the same time on one (possibly cold) shared cache directory
+    nsnap = 0
+    out = []
+    for op in case['ops']:
+        out.append(op)
+        if op['op'] == 'snapshot':
+            nsnap += 1
+        if nsnap and rng.random() < 0.25:
+            out.append({'op': 'pair', 'ua': rng.randrange(len(case['users'])), 'ub': rng.randrange(len(case['users'])),
+                        'kb': rng.choice(['restore', 'ls', 'lf']), 'cold': rng.random() < 0.7})
+    case['ops'] = out
     return case
 
 
@@ -113,6 +125,80 @@ def run_command(H, op, i, cache_dirs, use_cache):
     return out
 
 
+def run_pair(H, op, i, cache_dirs, mode):
+    """Client A restores while client B restores / lists, both through the same cache directory, in one
+    simulated process (two Repository objects, two backend adapters, one loop).  Both must behave exactly
+    like the same commands without a cache."""
+    import asyncio
+    import replicat.repository as R
+    from sim import store as _store
+    W = H.W
+    shared = str(W.dir / 'cache-shared') if mode != 'own' else cache_dirs[op['ua']]
+    # baseline: no cache, one after the other
+    base = {}
+    fork = history.Fork(H)
+    for who, u, kind in (('a', op['ua'], 'restore'), ('b', op['ub'], op['kb'])):
+        b = run_command(H, {'op': kind, 'u': u}, i, cache_dirs, use_cache=False)
+        base[who] = b
+    fork.restore()
+    saved = _save_dir(shared)
+    if op['cold']:
+        shutil.rmtree(shared, ignore_errors=True)
+        H.probe('pair_cold_cache')
+    W.env.urandom = substream(H.case['sched_seed'], f'urandom-cmd{i}')
+    res = {}
+
+    def mk(who, u, kind):
+        client = H.clients[u]
+
+        async def run_one():
+            backend = (_store.AsyncSimStore if W.flavour == 'async' else _store.SimStore)(W.state, W.profile())
+            repo = R.Repository(backend, concurrent=client.concurrent, quiet=True, cache_directory=shared)
+            await repo.unlock(password=client.password, key=client.key)
+            out = None
+            if kind == 'restore':
+                t = W.dir / f'pair-{who}'
+                shutil.rmtree(t, ignore_errors=True)
+                r = await repo.restore(path=t)
+                out = (sorted(r.files), gen.read_tree(t))
+                shutil.rmtree(t, ignore_errors=True)
+            elif kind == 'ls':
+                await repo.list_snapshots()
+            else:
+                await repo.list_files()
+            await repo.close()
+            return out
+        return run_one
+
+    async def main(r_):
+        return await asyncio.gather(mk('a', op['ua'], 'restore')(), mk('b', op['ub'], op['kb'])(), return_exceptions=True)
+    r = world.run_process(W.env, main, H.opts)
+    W.sim_steps += r.stats['steps']
+    W.sim_s += r.stats['sim_s']
+    W.digests.append(r.digest)
+    H.probe('pair')
+    if not r.ok:
+        H.flag('cache-changes-result', f'two clients on one cache directory: process did not finish: {r.outcome()} {r.exc or r.hang!r}', diff='hang', op='pair', mode=mode)
+    else:
+        for who, x, kind in (('a', r.value[0], 'restore'), ('b', r.value[1], op['kb'])):
+            b = base[who]
+            if isinstance(x, BaseException):
+                if b['outcome'] == 'ok':
+                    H.flag('cache-changes-result', f'two clients sharing a {"cold " if op["cold"] else ""}cache directory at the same time: {kind} by '
+                           f'u{op["ua"] if who == "a" else op["ub"]} raised {x!r}; without the cache it succeeds', diff='outcome', op='pair', mode=mode)
+                    break
+            elif kind == 'restore':
+                if b['outcome'] != 'ok' or x[0] != b.get('value') or x[1] != b.get('tree'):
+                    H.flag('cache-changes-result', f'two clients sharing a cache directory: restore differs from the cache-less run', diff='tree', op='pair', mode=mode)
+                    break
+            elif b['outcome'] != 'ok':
+                H.flag('cache-changes-result', f'two clients sharing a cache directory: {kind} succeeded, without the cache it gives {b["outcome"]}', diff='outcome', op='pair', mode=mode)
+                break
+    if not H.viol:
+        pass
+    return 1
+
+
 def compare(a, b):
     for k in ('outcome', 'value', 'stdout', 'tree'):
         if a.get(k) != b.get(k):
@@ -122,7 +208,20 @@ def compare(a, b):
     return None
 
 
+HOT = frozenset({'_get_cached', '_store_cached', '_delete_cached', '_download_snapshot_threadsafe', '_download_snapshot'})
+
+
 def run_case(case):
+    from sim.install import CTX
+    saved = CTX.hot_names
+    CTX.hot_names = HOT       # the cache code is where this property lives: pre-empt there far more often
+    try:
+        return _run_case(case)
+    finally:
+        CTX.hot_names = saved
+
+
+def _run_case(case):
     H = history.History({k: v for k, v in case.items()}, 'c18', ())
     W = H.W
     evaluations = 0
@@ -157,6 +256,11 @@ def run_case(case):
         trng = substream(case['torn_seed'], 'torn')
         for i, op in enumerate(case['ops']):
             H.opi = i
+            if op['op'] == 'pair':
+                evaluations += run_pair(H, op, i, cache_dirs, mode)
+                if H.viol:
+                    break
+                continue
             if op['op'] not in ('snapshot', 'delete', 'clean', 'restore', 'ls', 'lf'):
                 continue
             fork = history.Fork(H)
